@@ -1,0 +1,8 @@
+//go:build !verif
+// +build !verif
+
+package nitro
+
+// Verification hooks are compiled out without the `verif` build tag.
+
+func verifYield(point int, arg uint64) {}
